@@ -38,7 +38,7 @@ def run(ctx):
                          else f"no counterexample on {b}")
         if not w["found"]:
             raise ToolError(f"vacuity: switching {g} off no longer violates anything on {b}")
-        res = se.replay_witness(ctx, w, "C04", extra_runs=6 if quick else 40)
+        res = se.replay_witness(ctx, w, "C04", extra_runs=ctx.n(6, 40))
         if res:
             ctx.notes.setdefault("witness_replays", {})[g] = [s["guided"][:3] for s in res[0]["scenarios"]]
     for b in ("stale_fatal2_nocheck", "stale_fatal2", "invalid_stale2"):
@@ -46,7 +46,7 @@ def run(ctx):
         ctx.guards[f"goal CommitDuringFailedAttempt on {b}"] = f"reached at depth {g['depth']}" if g["found"] else "not reachable"
         if not g["found"]:
             raise ToolError(f"coverage goal CommitDuringFailedAttempt is not reachable on {b}")
-        se.replay_witness(ctx, g, "C04", also=("C01",), extra_runs=4 if quick else 30)
+        se.replay_witness(ctx, g, "C04", also=("C01",), extra_runs=ctx.n(4, 30))
     # 3. fault enumeration on the real code: every key the block touches x {persistent, fail-once}
     import json
     # (invalid_mid_fault4: an invalid transaction at the commit head forces the sequential replay of the suffix after a
@@ -54,14 +54,14 @@ def run(ctx):
     scn = fault_scenarios(["chain2", "stale_fatal2", "invalid_mid_fault4"] if quick else ["chain2", "rmw3", "dd3", "stale_fatal2", "fatal_in_order2", "grow_shrink3", "invalid_mid_fault4", "invalid_then_valid3"],
                           ["persistent", "once"])
     out = ctx.path("faults.ndjson")
-    args = {"groups": ["SCHED"], "workers": 2, "max_runs": 25 if quick else 400, "seed": ctx.seed, "policy": "pct",
+    args = {"groups": ["SCHED"], "workers": 2, "max_runs": ctx.n(25, 400), "seed": ctx.seed, "policy": "pct",
             "out": out, "scenarios": scn}
     r = ctx.vh("sched", args, timeout=3000)
     se.report(ctx, r, args, "C04")
     ctx.notes["fault_points"] = len(scn)
     ctx.samples.append({"fault_scenarios": [s["name"] for s in scn][:12]})
     # fault-free and in-order-fatal blocks, all schedules sampled: Ok exactly when in-order is Ok
-    r2, out2, args2 = se.controlled(ctx, ["stale_fatal2_nocheck", "stale_fatal2", "fatal_in_order2", "chain2", "rmw3", "badnonce_fatal2", "badnonce_reads3"], 150 if quick else 5000, tag="plain")
+    r2, out2, args2 = se.controlled(ctx, ["stale_fatal2_nocheck", "stale_fatal2", "fatal_in_order2", "chain2", "rmw3", "badnonce_fatal2", "badnonce_reads3"], ctx.n(150, 5000), tag="plain")
     se.report(ctx, r2, args2, "C04")
     se.validate(ctx, r2, out2, "trace_plain")
     ctx.rule = ("one case = (block, database key, fault mode, thread schedule); keys = every storage slot, sender, the "
